@@ -358,6 +358,55 @@ def run(repo: Repo, ctx) -> None:
                    tests[0].lineno < first_app,
                    f'{f.name}: dedup test after the first field is built',
                    f.loc, sample='test first', nontrivial=False)
+    # derived contexts must not alias the mutable descriptor state
+    cx = repo.cls(f'{MOD}.Context')
+    cinit = cx.methods.get('__init__')
+    der = cx.methods.get('derive')
+    if cinit is None or der is None:
+        raise AnalysisError('C14.R4: Context.__init__/derive not found')
+    mutable = [norm(n.target if isinstance(n, ast.AnnAssign)
+                    else n.targets[0]).split('.', 1)[1]
+               for n in walk_no_nested(cinit.node)
+               if isinstance(n, (ast.Assign, ast.AnnAssign))
+               and n.value is not None
+               and isinstance(n.value, (ast.List, ast.Dict, ast.Set))
+               and norm(n.target if isinstance(n, ast.AnnAssign)
+                        else n.targets[0]).startswith('self.')]
+    for attr in mutable:
+        asg = [n for n in walk_no_nested(der.node)
+               if isinstance(n, ast.Assign)
+               and norm(n.targets[0]).endswith('.' + attr)]
+        ok = len(asg) == 1 and norm(asg[0].value) in (
+            f'self.{attr}.copy()', f'list(self.{attr})',
+            f'dict(self.{attr})', f'self.{attr}[:]')
+        ctx.ob('C14.R4', f'Context.derive:copies-{attr}', ok,
+               f'Context.derive() does not give the derived context its own '
+               f'copy of {attr}: descriptors emitted through one context '
+               f'change the positions / dedup table of the other (equal ids '
+               f'with different bytes, dangling references)', der.loc,
+               sample=norm(asg[0].value) if asg else None)
+    # reader takes ancestors[-1] as the fundamental type: the writer's
+    # ancestor loop must emit the terminating ancestor before it stops
+    rd = repo.func(f'{MOD}._parse_scalar_descriptor')
+    reader_uses_last = 'ancestors[-1]' in norm(rd.node)
+    for fname in ('_describe_regular_scalar', '_describe_enum'):
+        fn = repo.func(f'{MOD}.{fname}')
+        for lp in [n for n in ast.walk(fn.node) if isinstance(n, ast.For)]:
+            app = [i for i, st in enumerate(lp.body)
+                   if 'ancestors.append(' in norm(st)]
+            brk = [i for i, st in enumerate(lp.body) if isinstance(st, ast.If)
+                   and any(isinstance(x, ast.Break) for x in st.body)]
+            if not app or not brk:
+                continue
+            ok = app[0] < brk[0] or not reader_uses_last
+            ctx.ob('C14.R1', f'{fname}:ancestors-include-terminator', ok,
+                   f'{fname} stops its ancestor walk before appending the '
+                   f'fundamental type, but the decoder takes ancestors[-1] '
+                   f'as the fundamental type: a derived scalar is described '
+                   f'with the wrong (or no) base type',
+                   f'{fn.module.rel()}:{lp.lineno}',
+                   sample='append precedes the break test')
+
     reg = repo.func(f'{MOD}._register_type_id')
     txt = norm(reg.node)
     ok = 'if type_id not in ctx.uuid_to_pos' in txt and \
